@@ -104,7 +104,11 @@ func VerifC10ObjOps() {
 	if vChoice(2) == 1 {
 		doc["a/b"] = vNum()
 	}
-	paths := [...]string{"/k", "/m/k", "/a~1b", "/q/k", "/m", ""}
+	if vParam("ARR", 0) == 1 {
+		// an array member holding a number and an object: '-' and indices inside longer pointers
+		doc["r"] = jsonArray{vNum(), jsonObject{"k": vNum()}}
+	}
+	paths := [...]string{"/k", "/m/k", "/a~1b", "/q/k", "/m", "", "/r/-", "/r/-/k", "/r/1/k", "/r/-/0", "/r/2/k", "/m/-"}
 	ops := make([]patchElement, k)
 	ref := make([]refPatchOp, k)
 	for j := range ops {
